@@ -135,3 +135,144 @@ pub fn assemble_kkt(
 ) -> KktSnapshot {
     crate::solver::core::kktsolvers::direct::verif_assemble(P, A, cones, triu)
 }
+
+/// Chordal decomposition internals as plain data (sdp feature only).
+#[cfg(feature = "sdp")]
+pub mod chordal {
+    use crate::algebra::*;
+    use crate::solver::chordal::ChordalInfo;
+    use crate::solver::{DefaultSettings, DefaultVariables, SupportedConeT};
+
+    /// clique tree of one decomposed PSD cone, read through the accessors that
+    /// the decomposition code itself uses (index = post order position)
+    #[derive(Clone, Debug)]
+    pub struct PatternView {
+        pub orig_index: usize,
+        pub ordering: Vec<usize>,
+        pub n_cliques: usize,
+        pub snode: Vec<Vec<usize>>,
+        pub separators: Vec<Vec<usize>>,
+        pub clique: Vec<Vec<usize>>,
+        /// raw parent index (into the unordered supernode array) of the clique at each post position
+        pub parent_raw: Vec<usize>,
+        pub snode_post: Vec<usize>,
+        pub nblk: Vec<usize>,
+        pub overlap: Vec<usize>,
+        pub decomposed_dim_and_overlaps: (usize, usize),
+        /// unordered arrays, including emptied (merged) supernodes
+        pub raw_snode: Vec<Vec<usize>>,
+        pub raw_separators: Vec<Vec<usize>>,
+        pub raw_parent: Vec<usize>,
+        pub raw_children: Vec<Vec<usize>>,
+    }
+
+    pub const NO_PARENT: usize = crate::solver::chordal::NO_PARENT;
+    pub const INACTIVE_NODE: usize = crate::solver::chordal::INACTIVE_NODE;
+
+    /// owner of a ChordalInfo
+    pub struct Chordal(ChordalInfo<f64>);
+
+    impl Chordal {
+        /// the analysis exactly as the solver's constructor runs it; None when nothing is decomposed
+        pub fn new(
+            A: &CscMatrix<f64>,
+            b: &[f64],
+            cones: &[SupportedConeT<f64>],
+            settings: &DefaultSettings<f64>,
+        ) -> Option<Self> {
+            let info = ChordalInfo::new(A, b, cones, settings);
+            if info.is_decomposed() {
+                Some(Chordal(info))
+            } else {
+                None
+            }
+        }
+
+        pub fn init_dims(&self) -> (usize, usize) {
+            self.0.init_dims
+        }
+
+        pub fn counts(&self) -> (usize, usize, usize, usize) {
+            (
+                self.0.init_psd_cone_count(),
+                self.0.decomposable_cone_count(),
+                self.0.premerge_psd_cone_count(),
+                self.0.final_psd_cone_count(),
+            )
+        }
+
+        pub fn patterns(&self) -> Vec<PatternView> {
+            self.0
+                .spatterns
+                .iter()
+                .map(|sp| {
+                    let t = &sp.sntree;
+                    let nc = t.n_cliques;
+                    PatternView {
+                        orig_index: sp.orig_index,
+                        ordering: sp.ordering.clone(),
+                        n_cliques: nc,
+                        snode: (0..nc).map(|i| t.get_snode(i).iter().copied().collect()).collect(),
+                        separators: (0..nc)
+                            .map(|i| t.get_separators(i).iter().copied().collect())
+                            .collect(),
+                        clique: (0..nc).map(|i| t.get_clique(i).iter().copied().collect()).collect(),
+                        parent_raw: (0..nc).map(|i| t.get_clique_parent(i)).collect(),
+                        snode_post: t.snode_post.clone(),
+                        nblk: (0..nc).map(|i| t.get_nblk(i)).collect(),
+                        overlap: (0..nc).map(|i| t.get_overlap(i)).collect(),
+                        decomposed_dim_and_overlaps: t.get_decomposed_dim_and_overlaps(),
+                        raw_snode: t.snode.iter().map(|s| s.iter().copied().collect()).collect(),
+                        raw_separators: t
+                            .separators
+                            .iter()
+                            .map(|s| s.iter().copied().collect())
+                            .collect(),
+                        raw_parent: t.snode_parent.clone(),
+                        raw_children: t
+                            .snode_children
+                            .iter()
+                            .map(|s| s.iter().copied().collect())
+                            .collect(),
+                    }
+                })
+                .collect()
+        }
+
+        /// decomp_augment on the given data
+        #[allow(clippy::type_complexity)]
+        pub fn augment(
+            &mut self,
+            P: &CscMatrix<f64>,
+            q: &[f64],
+            A: &CscMatrix<f64>,
+            b: &[f64],
+            settings: &DefaultSettings<f64>,
+        ) -> (
+            CscMatrix<f64>,
+            Vec<f64>,
+            CscMatrix<f64>,
+            Vec<f64>,
+            Vec<SupportedConeT<f64>>,
+        ) {
+            self.0.decomp_augment(P, q, A, b, settings)
+        }
+
+        /// decomp_reverse on the given internal vectors; returns (x, s, z) of the original size
+        pub fn reverse(
+            &self,
+            x: &[f64],
+            s: &[f64],
+            z: &[f64],
+            cones_internal: &[SupportedConeT<f64>],
+            settings: &DefaultSettings<f64>,
+        ) -> (Vec<f64>, Vec<f64>, Vec<f64>) {
+            let mut v = DefaultVariables::<f64>::new(x.len(), s.len());
+            v.x.copy_from_slice(x);
+            v.s.copy_from_slice(s);
+            v.z.copy_from_slice(z);
+            let out = self.0.decomp_reverse(&v, cones_internal, settings);
+            (out.x, out.s, out.z)
+        }
+    }
+}
